@@ -300,6 +300,9 @@ class Effects:
             return out
         if isinstance(e, ast.Call):
             fn = e.func
+            rr = self._call_result_roots(f, e, _seen)
+            if rr is not None:
+                return rr
             if isinstance(fn, ast.Attribute):
                 # method result: derived from the receiver (x.get(k), x.pop(), getters)
                 out = self.expr_roots(f, fn.value, _seen)
@@ -311,6 +314,65 @@ class Effects:
                     out |= {r for r in self.expr_roots(f, a, _seen) if r != "fresh"}
                 return out or {"unknown"}
         return {"unknown"}
+
+    def _returns_roots(self, q):
+        """Roots (in the callee's own terms) of what a function returns; None when
+        not determinable (recursion, unresolved)."""
+        if not hasattr(self, "_rr"):
+            self._rr, self._rr_busy = {}, set()
+        if q in self._rr:
+            return self._rr[q]
+        if q in self._rr_busy:
+            return set()
+        self._rr_busy.add(q)
+        try:
+            g = self.m.funcs[q]
+            out = set()
+            for r in (n for n in self.m.walk_own(g.node) if isinstance(n, ast.Return) and n.value is not None):
+                vals = r.value.elts if isinstance(r.value, ast.Tuple) else [r.value]
+                for v in vals:
+                    if isinstance(v, ast.Constant):
+                        continue
+                    out |= self.expr_roots(g, v)
+        finally:
+            self._rr_busy.discard(q)
+        if not self._rr_busy:
+            self._rr[q] = out
+        return out
+
+    def _call_result_roots(self, f, call, _seen=None):
+        """Roots of a call's result through the callee's return summary (which
+        parameter / receiver the result aliases), or None for unresolved calls."""
+        k, tg = self.r.resolve_call(f, call)
+        if k not in ("nested", "module", "import", "typed", "super") or not tg:
+            return None
+        out = set()
+        for q in tg:
+            g = self.m.funcs[q]
+            rr = self._returns_roots(q)
+            for r in rr:
+                if r in ("fresh", "unknown") or r.startswith("global:"):
+                    out.add(r)
+                elif r == "self":
+                    if isinstance(call.func, ast.Attribute):
+                        out |= self.expr_roots(f, call.func.value, _seen)
+                    else:
+                        out.add("self" if self._has_self(f) else "unknown")
+                elif r.startswith("param:"):
+                    pn = r[6:]
+                    a = self._actual(call, k, g, pn)
+                    if a is None:
+                        if pn not in g.params:
+                            out |= self.local_roots(f, pn, _seen)  # closure variable
+                        else:
+                            out.add("fresh")  # default value
+                    else:
+                        out |= self.expr_roots(f, a, _seen)
+        if not out:
+            return {"fresh"}
+        if len(out) > 1:
+            out.discard("fresh")
+        return out
 
     # --------------------------------------------------------- direct writes
     def direct(self, f: Func):
@@ -417,7 +479,18 @@ class Effects:
             for fl in c.fields.values():
                 for k in self.r.ann_classes(c.rel, fl.ann):
                     stored |= self.m.cone(k)
-        return {q for q in self.m.classes if q not in stored}
+        # a class that owns the message loop / dispatch table is the root of all
+        # persistent state, even though nobody stores it
+        roots = set()
+        for q, c in self.m.classes.items():
+            for mq in c.methods.values():
+                g = self.m.funcs[mq]
+                for n in self.m.walk_own(g.node):
+                    if isinstance(n, ast.Dict) and len(n.keys) >= 8 and sum(1 for k in n.keys if isinstance(k, ast.Constant) and isinstance(k.value, str) and "/" in k.value) >= 5:
+                        roots.add(q)
+                    if isinstance(n, ast.Call) and isinstance(n.func, ast.Attribute) and n.func.attr == "read_message":
+                        roots.add(q)
+        return {q for q in self.m.classes if q not in stored and q not in roots}
 
     # ------------------------------------------------------------ summaries
     def summaries(self, by_name=True, max_iter=12):
